@@ -71,6 +71,14 @@ def gen_base(rng, tier, index):
         # big results / big data items (more than a pipe buffer of 64 KiB each)
         n = call["n"] = min(n, 8)
         call["result_size" if index % 16 == 7 else "item_size"] = rng.choice([70_000, 200_000])
+    if index % 16 == 2 and n:
+        # equal-but-different items next to each other (1 and 1.0: ==, same hash, other type), f reports what it saw
+        call["twins"] = True
+        call["list_items"] = False
+        chunk = call["chunk"] = rng.choice([2, 4, 5])
+    elif index % 16 == 10 and n:
+        call["exc_results"] = True      # f returns exception objects as ordinary values
+        call["list_items"] = False
     if call["list_items"] and index % 2 == 0:
         chunk = call["chunk"] = 1           # the default chunk size with items that are lists
     nchunks = max(1, -(-n // chunk))
